@@ -442,8 +442,10 @@ fn gen_cqe(r: &mut Rng, o: &OpSt, restart_bias: u64) -> Cq {
                 Cq { res: 0, more: false, notif: true }
             } else if restart {
                 Cq { res: *r.pick(&[-4, -125]), more: false, notif: false }
-            } else if r.chance(1, 6) {
-                Cq { res: *r.pick(&[-32, -11]), more: false, notif: false }
+            } else if r.chance(1, 5) {
+                // A failed zero-copy send: Linux posts the error with F_MORE and the notification
+                // afterwards (observed on 6.18), older kernels post the error alone.
+                Cq { res: *r.pick(&[-32, -11]), more: r.chance(2, 3), notif: false }
             } else {
                 Cq { res: 1 + r.below(32) as i32, more: true, notif: false }
             }
@@ -728,12 +730,14 @@ pub fn run_with(args: &Args, focus: Focus) -> i32 {
         let mut r = root.fork(i as u64);
         one_case(&mut r, &focus, &silent)
     });
-    if focus.prop == "C03" {
-        // Second part: futures and ring on different threads.
+    if matches!(focus.prop, "C03" | "C06" | "C01") {
+        // Second part: futures and ring on different threads (C06, C01: the futures are also
+        // dropped while the other thread polls the ring).
         let n2 = if args.thorough { 20_000 } else { 1_500 };
+        let with_drops = focus.prop != "C03";
         let more = out::run_forked(&args.out, n2, 12, &|i| {
             let mut r = root.fork(1_000_000 + i as u64);
-            sched_case(&mut r, &silent)
+            sched_case(&mut r, &silent, with_drops)
         });
         cases.extend(more);
     }
@@ -760,8 +764,12 @@ pub fn run(args: &Args) -> i32 {
 // steps are whole API calls); the oracle is the property itself: after the race and a few more
 // `Ring::poll` calls every future that is still pending must have been woken since its last poll.
 
-pub fn sched_case(r: &mut Rng, silent: &Arc<Mutex<Option<String>>>) -> Case {
+pub fn sched_case(r: &mut Rng, silent: &Arc<Mutex<Option<String>>>, with_drops: bool) -> Case {
     use crate::sched;
+    alloc::enable(false);
+    alloc::unwatch_all();
+    let _ = alloc::take_bad_frees();
+    let drop_seed = r.next();
     let cap = *r.pick(&[1u32, 1, 2]);
     let n_futs = r.range(2, 4) as usize;
     let ring_polls = r.range(1, 4) as usize;
@@ -788,8 +796,10 @@ pub fn sched_case(r: &mut Rng, silent: &Arc<Mutex<Option<String>>>) -> Case {
         futs: Vec<Option<Pin<Box<dyn Future<Output = std::io::Result<usize>> + Send>>>>,
         pending_since_wake: Vec<bool>, // last poll returned Pending and no wake seen since
         polled: Vec<bool>,
+        boxes: Vec<Option<usize>>,     // address of the operation's state once its submission was queued
+        dropped_by_thread: Vec<bool>,
     }
-    let shared = Arc::new(Mutex::new(Shared { futs: futs.into_iter().map(Some).collect(), pending_since_wake: vec![false; n_futs], polled: vec![false; n_futs] }));
+    let shared = Arc::new(Mutex::new(Shared { futs: futs.into_iter().map(Some).collect(), pending_since_wake: vec![false; n_futs], polled: vec![false; n_futs], boxes: vec![None; n_futs], dropped_by_thread: vec![false; n_futs] }));
     let ring_cell = Arc::new(Mutex::new(Some(ring)));
     let mut threads: Vec<Box<dyn FnOnce() + Send>> = Vec::new();
     {
@@ -825,7 +835,16 @@ pub fn sched_case(r: &mut Rng, silent: &Arc<Mutex<Option<String>>>) -> Case {
                     let mut f = shared.lock().unwrap().futs[i].take().unwrap();
                     let w = wakes.waker(i as u64);
                     let res = poll_once(f.as_mut(), &w);
+                    // The submission (if queued by this poll) is still pending: learn the state's address.
+                    let queued: Vec<abi::Sqe> = simk::with(|s| s.pending_sqes());
                     let mut sh = shared.lock().unwrap();
+                    for q in queued {
+                        if q.opcode != abi::OP_ASYNC_CANCEL && q.fd == fake_fd(i) && sh.boxes[i].is_none() {
+                            let addr = (q.user_data & !1) as usize;
+                            alloc::watch(addr);
+                            sh.boxes[i] = Some(addr);
+                        }
+                    }
                     sh.polled[i] = true;
                     match res {
                         Poll::Pending => {
@@ -840,6 +859,19 @@ pub fn sched_case(r: &mut Rng, silent: &Arc<Mutex<Option<String>>>) -> Case {
                 }
                 if round < rounds {
                     sched::yield_point(100);
+                }
+            }
+            if with_drops {
+                // Drop some of the futures that are still pending, racing with the ring thread.
+                let mut dr = Rng::new(drop_seed);
+                for i in 0..n_futs {
+                    if dr.chance(1, 2) {
+                        let f = shared.lock().unwrap().futs[i].take();
+                        if let Some(f) = f {
+                            shared.lock().unwrap().dropped_by_thread[i] = true;
+                            drop(f);
+                        }
+                    }
                 }
             }
         }));
@@ -885,6 +917,28 @@ pub fn sched_case(r: &mut Rng, silent: &Arc<Mutex<Option<String>>>) -> Case {
     let _ = std::panic::catch_unwind(std::panic::AssertUnwindSafe(move || drop(rest)));
     drop(sq);
     let _ = std::panic::catch_unwind(std::panic::AssertUnwindSafe(move || drop(ring)));
+    // C06/C01: every started operation's state is freed exactly once by now.
+    {
+        let freed = alloc::take_freed();
+        let sh = shared.lock().unwrap();
+        for i in 0..n_futs {
+            if let Some(addr) = sh.boxes[i] {
+                // only the first free of the address is the state's (the address may be reused)
+                let n = freed.iter().filter(|a| **a == addr).count();
+                if n == 0 && oracle.is_none() {
+                    oracle = Some(format!(
+                        "the state of operation {i} ({}) was never freed although its future and the ring were dropped: leaked",
+                        if sh.dropped_by_thread[i] { "future dropped while the other thread polled the ring" } else { "future dropped at the end" }
+                    ));
+                }
+            }
+        }
+        let double = alloc::take_bad_frees();
+        if double > 0 && oracle.is_none() {
+            oracle = Some(format!("{double} operation state(s) were freed twice"));
+        }
+    }
+    alloc::unwatch_all();
     for fd in fds {
         drop(ManuallyDrop::into_inner(*fd));
     }
